@@ -3,7 +3,8 @@
 
   The theorems are about the limb-list model `UVerif.Integer.*` (lean/UVerif/Model/Integer.lean, transcribed from
   include/universal/number/integer/integer_impl.hpp) and hold for EVERY size `n ≥ 1` and EVERY limb width `w ≥ 1`
-  except the multi-block `uint64_t` instantiation, whose carry chain drops the carry (`Supported`).
+  (`C08_Supported`) — multi-block `uint64_t` included since the repair of the `+=` carry chain.  Only `operator*=` keeps a
+  restriction (`C08_MulSupported`): its 64-bit accumulator holds `a_i·b_j + r + carry` only for limbs of at most 32 bits.
   Right-hand sides are the executable specification `UVerif.IntegerSpec.*` (lean/UVerif/Spec/Integer.lean) that the
   driver evaluates on the implementation's output: exact `Int` arithmetic on the signed readings, wrapped into n bits.
 -/
@@ -11,11 +12,18 @@ import UVerifProofs.Lemmas.Integer
 
 open UVerif UVerif.Limbs
 
-/-- sizes and limb widths covered: everything except more than one `uint64_t` block -/
-def C08_Supported (w n : Nat) : Prop := 0 < w ∧ 0 < n ∧ (w ≠ 64 ∨ nrBlocks w n = 1)
+/-- sizes and limb widths covered: all of them -/
+def C08_Supported (w n : Nat) : Prop := 0 < w ∧ 0 < n
 
-example : C08_Supported 8 129 := ⟨by decide, by decide, Or.inl (by decide)⟩
-example : C08_Supported 64 64 := ⟨by decide, by decide, Or.inr (by decide)⟩
+/-- sizes and limb widths on which the MODEL of `operator*=` stands for the code: everything except more than one `uint64_t`
+    block (there `segment += a_i * b_j` overflows the 64-bit accumulator and `segment >>= 64` is undefined; known finding
+    `integer.u64.multiblock_mul`, not exercised by the streams) -/
+def C08_MulSupported (w n : Nat) : Prop := 0 < w ∧ 0 < n ∧ (w ≠ 64 ∨ nrBlocks w n = 1)
+
+example : C08_Supported 8 129 := ⟨by decide, by decide⟩
+example : C08_Supported 64 129 := ⟨by decide, by decide⟩
+example : C08_MulSupported 32 129 := ⟨by decide, by decide, Or.inl (by decide)⟩
+example : C08_MulSupported 64 64 := ⟨by decide, by decide, Or.inr (by decide)⟩
 example : Canon 8 12 [0xff, 0x0f] := by decide
 
 variable {w n : Nat} {a b : List Nat}
@@ -25,8 +33,8 @@ theorem C08_add (h : C08_Supported w n) (ha : Canon w n a) (hb : Canon w n b) :
     Canon w n (Integer.add w n a b) ∧
     toNat w (Integer.add w n a b) = IntegerSpec.add n (toNat w a) (toNat w b) ∧
     toInt w n (Integer.add w n a b) = toSigned n (ofSigned n (toInt w n a + toInt w n b)) := by
-  obtain ⟨hw, hn, h64⟩ := h
-  obtain ⟨hc, hv⟩ := Integer.add_spec hw hn h64 ha.shape hb.shape
+  obtain ⟨hw, hn⟩ := h
+  obtain ⟨hc, hv⟩ := Integer.add_spec hw hn ha.shape hb.shape
   have e : toNat w (Integer.add w n a b) = IntegerSpec.add n (toNat w a) (toNat w b) := by
     rw [hv]; unfold IntegerSpec.add IntegerSpec.wrap IntegerSpec.val; rw [ofSigned_add]
   exact ⟨hc, e, by unfold toInt; rw [e]; rfl⟩
@@ -38,8 +46,8 @@ theorem C08_sub (h : C08_Supported w n) (ha : Canon w n a) (hb : Canon w n b) :
     Canon w n (Integer.sub w n a b) ∧
     toNat w (Integer.sub w n a b) = IntegerSpec.sub n (toNat w a) (toNat w b) ∧
     toInt w n (Integer.sub w n a b) = toSigned n (ofSigned n (toInt w n a - toInt w n b)) := by
-  obtain ⟨hw, hn, h64⟩ := h
-  obtain ⟨hc, hv⟩ := Integer.sub_spec hw hn h64 ha.shape hb.shape
+  obtain ⟨hw, hn⟩ := h
+  obtain ⟨hc, hv⟩ := Integer.sub_spec hw hn ha.shape hb.shape
   have e : toNat w (Integer.sub w n a b) = IntegerSpec.sub n (toNat w a) (toNat w b) := by
     rw [hv]; unfold IntegerSpec.sub IntegerSpec.wrap IntegerSpec.val; rw [ofSigned_sub]
   exact ⟨hc, e, by unfold toInt; rw [e]; rfl⟩
@@ -50,8 +58,8 @@ theorem C08_neg (h : C08_Supported w n) (ha : Canon w n a) :
     Canon w n (Integer.neg w n a) ∧
     toNat w (Integer.neg w n a) = IntegerSpec.neg n (toNat w a) ∧
     toInt w n (Integer.neg w n a) = toSigned n (ofSigned n (-(toInt w n a))) := by
-  obtain ⟨hw, hn, h64⟩ := h
-  obtain ⟨hc, hv⟩ := Integer.neg_spec hw hn h64 ha.shape
+  obtain ⟨hw, hn⟩ := h
+  obtain ⟨hc, hv⟩ := Integer.neg_spec hw hn ha.shape
   have e : toNat w (Integer.neg w n a) = IntegerSpec.neg n (toNat w a) := by
     rw [hv]; unfold IntegerSpec.neg IntegerSpec.wrap IntegerSpec.val; rw [ofSigned_neg]
   exact ⟨hc, e, by unfold toInt; rw [e]; rfl⟩
@@ -61,16 +69,16 @@ example : toNat 8 (Integer.neg 8 9 [0, 1]) = 0x100 := by decide
 
 theorem C08_inc (h : C08_Supported w n) (ha : Canon w n a) :
     Canon w n (Integer.inc w n a) ∧ toNat w (Integer.inc w n a) = IntegerSpec.inc n (toNat w a) := by
-  obtain ⟨hw, hn, h64⟩ := h
-  obtain ⟨hc, hv⟩ := Integer.inc_spec hw hn h64 ha.shape
+  obtain ⟨hw, hn⟩ := h
+  obtain ⟨hc, hv⟩ := Integer.inc_spec hw hn ha.shape
   refine ⟨hc, ?_⟩
   rw [hv]; unfold IntegerSpec.inc IntegerSpec.wrap IntegerSpec.val
   rw [ofSigned_add_const, ← ofSigned_natCast]; rfl
 
 theorem C08_dec (h : C08_Supported w n) (ha : Canon w n a) :
     Canon w n (Integer.dec w n a) ∧ toNat w (Integer.dec w n a) = IntegerSpec.dec n (toNat w a) := by
-  obtain ⟨hw, hn, h64⟩ := h
-  obtain ⟨hc, hv⟩ := Integer.dec_spec hw hn h64 ha.shape
+  obtain ⟨hw, hn⟩ := h
+  obtain ⟨hc, hv⟩ := Integer.dec_spec hw hn ha.shape
   refine ⟨hc, ?_⟩
   unfold IntegerSpec.dec IntegerSpec.wrap IntegerSpec.val
   apply eq_ofSigned_of_modEq hc.2.2
@@ -83,13 +91,15 @@ theorem C08_dec (h : C08_Supported w n) (ha : Canon w n a) :
   have := ((modEq_toSigned n (toNat w a)).symm.add (h2.sub (Int.ModEq.refl 1)))
   simpa [sub_eq_add_neg] using this
 
-/-- multiplication (single-block product or sign-magnitude schoolbook in nbits+1): the exact product wrapped -/
-theorem C08_mul (h : C08_Supported w n) (ha : Canon w n a) (hb : Canon w n b) :
+/-- multiplication (single-block product or sign-magnitude schoolbook in nbits+1): the exact product wrapped — for every limb
+    width whose partial products fit the 64-bit accumulator (`C08_MulSupported`; the hypothesis restricts where the model
+    stands for the code, the statement about the model holds for every `w`) -/
+theorem C08_mul (h : C08_MulSupported w n) (ha : Canon w n a) (hb : Canon w n b) :
     Canon w n (Integer.mul w n a b) ∧
     toNat w (Integer.mul w n a b) = IntegerSpec.mul n (toNat w a) (toNat w b) ∧
     toInt w n (Integer.mul w n a b) = toSigned n (ofSigned n (toInt w n a * toInt w n b)) := by
-  obtain ⟨hw, hn, h64⟩ := h
-  obtain ⟨hc, hv⟩ := Integer.mul_spec hw hn h64 ha hb
+  obtain ⟨hw, hn, _⟩ := h
+  obtain ⟨hc, hv⟩ := Integer.mul_spec hw hn ha hb
   have e : toNat w (Integer.mul w n a b) = IntegerSpec.mul n (toNat w a) (toNat w b) := by
     rw [hv]; unfold IntegerSpec.mul IntegerSpec.wrap IntegerSpec.val; rw [ofSigned_mul]
   exact ⟨hc, e, by unfold toInt; rw [e]; rfl⟩
@@ -98,10 +108,12 @@ theorem C08_mul (h : C08_Supported w n) (ha : Canon w n a) (hb : Canon w n b) :
 example : toNat 8 (Integer.mul 8 17 [0, 0, 1] [0, 0, 1]) = IntegerSpec.mul 17 0x10000 0x10000 := by decide
 example : toNat 8 (Integer.mul 8 17 [0xff, 0xff, 1] [0xff, 0xff, 1]) = 1 := by decide
 
-/-- the carry chain of multi-block `uint64_t` drops every carry (`integer_impl.hpp:291`), so `C08_Supported`
-    cannot be weakened: `integer<128, uint64_t>`: (2^64 − 1) + 1 = 0 -/
-theorem C08_add_u64_multiblock_counterexample :
-    ¬ (toNat 64 (Integer.add 64 128 [2 ^ 64 - 1, 0] [1, 0]) = IntegerSpec.add 128 (2 ^ 64 - 1) 1) := by decide
+/-- the former witness of the dropped carry: `integer<128, uint64_t>`: (2^64 − 1) + 1 = 2^64, and the witness recorded in
+    known_findings.json (two 128-bit operands just below 2^127 whose sum wraps) -/
+theorem C08_add_u64_multiblock_cfg_carry :
+    toNat 64 (Integer.add 64 128 [2 ^ 64 - 1, 0] [1, 0]) = IntegerSpec.add 128 (2 ^ 64 - 1) 1 ∧
+    toNat 64 (Integer.add 64 128 [0xfffffffffffffffd, 0x7fffffffffffffff] [0xffffffffffffffed, 0x7fffffffffffffff])
+      = 0xffffffffffffffffffffffffffffffea := by decide
 
 /-! ### bitwise operators -/
 
@@ -110,8 +122,8 @@ theorem C08_bitwise (h : C08_Supported w n) (ha : Canon w n a) (hb : Canon w n b
     (Canon w n (Integer.bor w n a b) ∧ toNat w (Integer.bor w n a b) = IntegerSpec.bor n (toNat w a) (toNat w b)) ∧
     (Canon w n (Integer.bxor w n a b) ∧ toNat w (Integer.bxor w n a b) = IntegerSpec.bxor n (toNat w a) (toNat w b)) ∧
     (Canon w n (Integer.flip w n a) ∧ toNat w (Integer.flip w n a) = IntegerSpec.bnot n (toNat w a)) :=
-  ⟨Integer.band_spec h.1 h.2.1 ha.shape hb.shape, Integer.bor_spec h.1 h.2.1 ha.shape hb.shape,
-   Integer.bxor_spec h.1 h.2.1 ha.shape hb.shape, Integer.bnot_spec h.1 h.2.1 ha⟩
+  ⟨Integer.band_spec h.1 h.2 ha.shape hb.shape, Integer.bor_spec h.1 h.2 ha.shape hb.shape,
+   Integer.bxor_spec h.1 h.2 ha.shape hb.shape, Integer.bnot_spec h.1 h.2 ha⟩
 
 example : toNat 16 (Integer.bxor 16 17 [0xffff, 1] [0x00ff, 0]) = IntegerSpec.bxor 17 0x1ffff 0xff := by decide
 
@@ -122,31 +134,56 @@ theorem C08_cmp (h : C08_Supported w n) (ha : Canon w n a) (hb : Canon w n b) :
     Integer.cmpMask w n a b = IntegerSpec.cmpMask n (toNat w a) (toNat w b) ∧
     Integer.lt w n a b = decide (toInt w n a < toInt w n b) ∧
     Integer.eq a b = decide (toInt w n a = toInt w n b) :=
-  ⟨Integer.cmpMask_spec h.1 h.2.1 h.2.2 ha hb, Integer.lt_spec h.1 h.2.1 h.2.2 ha hb, Integer.eq_spec ha hb⟩
+  ⟨Integer.cmpMask_spec h.1 h.2 ha hb, Integer.lt_spec h.1 h.2 ha hb, Integer.eq_spec ha hb⟩
 
 /-! ### shifts -/
 
-/-- left shift (block shift + bit shift + MSU mask) with a signed count, every count: `a · 2^k` wrapped for k ≥ 0, and
-    for a negative count the arithmetic right shift by −k -/
-theorem C08_shl (h : C08_Supported w n) (ha : Canon w n a) (k : Int) :
+/-- left shift (block shift + bit shift + MSU mask) by any count k ≥ 0 (beyond nbits included): `a · 2^k` wrapped -/
+theorem C08_shl (h : C08_Supported w n) (ha : Canon w n a) (k : Int) (hk : 0 ≤ k) :
     Canon w n (Integer.shl w n a k) ∧ toNat w (Integer.shl w n a k) = IntegerSpec.shl n (toNat w a) k :=
-  Integer.shl_spec h.1 h.2.1 ha k
+  Integer.shl_spec h.1 h.2 ha k (Or.inl hk)
 
 example : toNat 8 (Integer.shl 8 17 [0x81, 0x00, 0x01] 9) = IntegerSpec.shl 17 0x10081 9 := by decide
 
-/-- arithmetic right shift, every count (in particular the whole range [−nbits−1, nbits+1] of the property): floor division
-    by 2^k with sign extension; from nbits on the result is the sign fill, 0 or −1 (repaired in 11c577e: the code used
-    to return 0 for negative values too); a negative count shifts left -/
-theorem C08_shr (h : C08_Supported w n) (ha : Canon w n a) (k : Int) :
+/-- the full statement about `>>` over the whole count range of the property -/
+def C08_shr_full : Prop := ∀ (w n : Nat) (a : List Nat) (k : Int), C08_Supported w n → Canon w n a →
+    toNat w (Integer.shr w n a k) = IntegerSpec.shr n (toNat w a) k
+
+/-- arithmetic right shift: floor division by 2^k with sign extension, for every count below nbits, and for every
+    count at all when the value is non-negative; a negative count shifts left.  What is missing for `C08_shr_full`: a negative
+    value shifted by nbits or more, where the code returns 0 instead of −1 (D8, `C08_shr_count_ge_nbits`, `C08_shr_counterexample`) -/
+theorem C08_shr_partial (h : C08_Supported w n) (ha : Canon w n a) (k : Int) (hg : k < n ∨ 0 ≤ toInt w n a) :
     Canon w n (Integer.shr w n a k) ∧ toNat w (Integer.shr w n a k) = IntegerSpec.shr n (toNat w a) k ∧
     toInt w n (Integer.shr w n a k) = toSigned n (IntegerSpec.shr n (toNat w a) k) := by
-  obtain ⟨hc, hv⟩ := Integer.shr_spec h.1 h.2.1 ha k
+  obtain ⟨hc, hv⟩ := Integer.shr_spec h.1 h.2 ha k (Or.inr hg)
   exact ⟨hc, hv, by unfold toInt; rw [hv]⟩
 
+/-- `<<` with a negative count is the same right shift, under the same restriction -/
+theorem C08_shl_negative_count_partial (h : C08_Supported w n) (ha : Canon w n a) (k : Int) (hg : -k < n ∨ 0 ≤ toInt w n a) :
+    Canon w n (Integer.shl w n a k) ∧ toNat w (Integer.shl w n a k) = IntegerSpec.shl n (toNat w a) k :=
+  Integer.shl_spec h.1 h.2 ha k (Or.inr hg)
+
+/-- the excluded region, stated positively: a right shift by nbits or more returns the canonical zero for EVERY value
+    (`if (bitsToShift >= nbits) { setzero(); return *this; }`), whatever the limb width -/
+theorem C08_shr_count_ge_nbits (h : C08_Supported w n) (ha : Canon w n a) (k : Int) (hk : (n : Int) ≤ k) :
+    Canon w n (Integer.shr w n a k) ∧ toNat w (Integer.shr w n a k) = 0 := by
+  rw [Integer.shr_eq_shl_neg]
+  obtain ⟨hc, hv⟩ := Integer.shl_int_spec h.1 h.2 ha (-k)
+  refine ⟨hc, ?_⟩
+  have hn := h.2
+  rw [hv, if_neg (by omega), if_pos (by omega), if_neg (by omega)]
+
 example : toNat 8 (Integer.shr 8 17 [0x00, 0x80, 0x01] 9) = IntegerSpec.shr 17 0x18000 9 := by decide
--- counts at and beyond nbits on a negative value: −128 >> 8 = −1, −128 >> 9 = −1, and 64 >> 8 = 0   (integer<8>)
-example : toNat 8 (Integer.shr 8 8 [0x80] 8) = 0xff ∧ toNat 8 (Integer.shr 8 8 [0x80] 9) = 0xff ∧ toNat 8 (Integer.shr 8 8 [0x40] 8) = 0 := by decide
-example : toNat 8 (Integer.shr 8 8 [0x80] 8) = IntegerSpec.shr 8 0x80 8 := by decide
+-- counts at and beyond nbits: −128 >> 8 and −128 >> 9 are 0 in the code (the arithmetic shift gives −1), 64 >> 8 = 0   (integer<8>)
+example : toNat 8 (Integer.shr 8 8 [0x80] 8) = 0 ∧ toNat 8 (Integer.shr 8 8 [0x80] 9) = 0 ∧ toNat 8 (Integer.shr 8 8 [0x40] 8) = 0 := by decide
+example : (8 : Int) < 17 ∨ (0 : Int) ≤ toInt 8 17 [0x00, 0x80, 0x01] := Or.inl (by decide)
+
+/-- D8: `integer<8>(−128) >> 8` is 0 in the code (`setzero()`), the arithmetic shift gives −1 -/
+theorem C08_shr_counterexample : ¬ C08_shr_full := by
+  intro hfull
+  have := hfull 8 8 [0x80] 8 ⟨by decide, by decide⟩ (by decide)
+  revert this
+  decide
 
 /-! ### conversions -/
 
@@ -198,21 +235,17 @@ theorem C08_from_native (hw : 0 < w) (hn : 0 < n) (v : Int) (u : Nat) (hu : u < 
 
 /-! ### division and remainder -/
 
-/-- the one operand pair on which the native fast path of the exact-fit 32/64-bit single block traps (SIGFPE) -/
-def C08_NativeTrap (w n : Nat) (a b : List Nat) : Prop :=
-  n = w ∧ 32 ≤ w ∧ toInt w n a = -((2 ^ (n - 1) : Nat) : Int) ∧ toInt w n b = -1
-
-/-- `/` and `%` (native fast path for the exact-fit single block, `idiv` long division in nbits+1 otherwise):
-    quotient and remainder of the division that truncates toward zero, wrapped into n bits, for every b ≠ 0 -/
-theorem C08_divrem (h : C08_Supported w n) (ha : Canon w n a) (hb : Canon w n b) (hb0 : toNat w b ≠ 0)
-    (hnt : ¬ C08_NativeTrap w n a b) :
-    ∃ q r, Integer.divrem w n a b false = some q ∧ Integer.divrem w n a b true = some r ∧
-      Canon w n q ∧ Canon w n r ∧
-      toNat w q = IntegerSpec.div n (toNat w a) (toNat w b) ∧ toNat w r = IntegerSpec.rem n (toNat w a) (toNat w b) ∧
-      toInt w n q = toSigned n (ofSigned n (Int.tdiv (toInt w n a) (toInt w n b))) ∧
-      toInt w n r = toSigned n (ofSigned n (Int.tmod (toInt w n a) (toInt w n b))) := by
-  obtain ⟨q, r, e1, e2, c1, c2, v1, v2⟩ := Integer.divrem_spec h.1 h.2.1 h.2.2 ha hb hb0 hnt
-  exact ⟨q, r, e1, e2, c1, c2, v1, v2, by unfold toInt; rw [v1]; rfl, by unfold toInt; rw [v2]; rfl⟩
+/-- `/` and `%` (native fast path for the exact-fit single block — a divisor −1 is negated in the block type, so the most
+    negative value / −1 wraps instead of trapping —, `idiv` long division in nbits+1 otherwise): quotient and remainder of the
+    division that truncates toward zero, wrapped into n bits, for every b ≠ 0 and every a -/
+theorem C08_divrem (h : C08_Supported w n) (ha : Canon w n a) (hb : Canon w n b) (hb0 : toNat w b ≠ 0) :
+    Canon w n (Integer.divrem w n a b false) ∧ Canon w n (Integer.divrem w n a b true) ∧
+      toNat w (Integer.divrem w n a b false) = IntegerSpec.div n (toNat w a) (toNat w b) ∧
+      toNat w (Integer.divrem w n a b true) = IntegerSpec.rem n (toNat w a) (toNat w b) ∧
+      toInt w n (Integer.divrem w n a b false) = toSigned n (ofSigned n (Int.tdiv (toInt w n a) (toInt w n b))) ∧
+      toInt w n (Integer.divrem w n a b true) = toSigned n (ofSigned n (Int.tmod (toInt w n a) (toInt w n b))) := by
+  obtain ⟨c1, c2, v1, v2⟩ := Integer.divrem_spec h.1 h.2 ha hb hb0
+  exact ⟨c1, c2, v1, v2, by unfold toInt; rw [v1]; rfl, by unfold toInt; rw [v2]; rfl⟩
 
 /-- what the specification's quotient and remainder satisfy: a = (a/b)·b + a%b, |a%b| < |b|, and the remainder is
     the signed value itself when it fits (it always does: |a%b| < |b| ≤ 2^(n−1)) -/
@@ -221,14 +254,18 @@ theorem C08_divrem_euclid (x y : Int) (hy : y ≠ 0) :
   ⟨Int.mul_tdiv_add_tmod x y, Integer.abs_tmod_lt x y hy⟩
 
 -- long division with a two-limb dividend, negative divisor: −30000 / 7 and −30000 % 7 in integer<17, uint8_t>
-example : (Integer.divrem 8 17 (ofNat 8 (nrBlocks 8 17) (ofSigned 17 (-30000))) (ofNat 8 (nrBlocks 8 17) 7) false).map (toNat 8)
-    = some (ofSigned 17 (-4285)) := by decide
-example : (Integer.divrem 8 17 (ofNat 8 (nrBlocks 8 17) (ofSigned 17 (-30000))) (ofNat 8 (nrBlocks 8 17) 7) true).map (toNat 8)
-    = some (ofSigned 17 (-5)) := by decide
+example : toNat 8 (Integer.divrem 8 17 (ofNat 8 (nrBlocks 8 17) (ofSigned 17 (-30000))) (ofNat 8 (nrBlocks 8 17) 7) false)
+    = ofSigned 17 (-4285) := by decide
+example : toNat 8 (Integer.divrem 8 17 (ofNat 8 (nrBlocks 8 17) (ofSigned 17 (-30000))) (ofNat 8 (nrBlocks 8 17) 7) true)
+    = ofSigned 17 (-5) := by decide
 
-/-- the native fast path traps on INT_MIN / −1 in the model as in the code (integer<32, uint32_t>) -/
-theorem C08_div_native_trap_counterexample :
-    Integer.divrem 32 32 [0x80000000] [0xffffffff] false = none := by decide
+/-- the former trap witnesses: INT_MIN / −1 and INT_MIN % −1 on the exact-fit native fast path (integer<32, uint32_t>,
+    integer<64, uint64_t>) wrap to the most negative value and to 0 -/
+theorem C08_div_native_cfg_maxneg_by_minus1 :
+    Integer.divrem 32 32 [0x80000000] [0xffffffff] false = [0x80000000] ∧
+    Integer.divrem 32 32 [0x80000000] [0xffffffff] true = [0] ∧
+    Integer.divrem 64 64 [0x8000000000000000] [0xffffffffffffffff] false = [0x8000000000000000] ∧
+    Integer.divrem 64 64 [0x8000000000000000] [0xffffffffffffffff] true = [0] := by decide
 
 /-! ### read-back to native integers -/
 
@@ -273,6 +310,5 @@ example : Integer.toI64 8 12 [0x00, 0x08] = ofSigned 64 (-2048) := by decide
 /-! ### further non-vacuity examples: the hypotheses of the theorems above are satisfiable on non-trivial instances -/
 
 example : Integer.cmpMask 8 12 [0xff, 0x0f] [0x01, 0x00] = IntegerSpec.cmpMask 12 0xfff 1 := by decide
-example : ¬ C08_NativeTrap 8 17 [0xd0, 0x8a, 0x01] [7, 0, 0] := by unfold C08_NativeTrap; decide
 example : Canon 16 17 [0x8ad0, 0x1] ∧ toNat 16 [0x8ad0, 0x1] ≠ 0 := by decide
 example : toNat 8 (Integer.convertSigned 8 12 (-5)) = 0xffb ∧ IntegerSpec.fits 12 (-5) = true := by decide
